@@ -19,6 +19,30 @@ _PKGS = ['scippneutron', 'scippneutron._utils', 'scippneutron.conversion', 'scip
 _REAL_INIT = {'scippneutron._utils', 'scippneutron.atoms'}
 
 
+class _BarePackage(types.ModuleType):
+    """Package object whose __init__ is not executed; names are resolved lazily by finding
+    the submodule that defines them (class/def/assignment at top level)."""
+
+    def __getattr__(self, name):
+        if name.startswith('__'):
+            raise AttributeError(name)
+        import re
+
+        d = self.__path__[0]
+        pat = re.compile(rf'^(class|def)\s+{re.escape(name)}\b|^{re.escape(name)}\s*[:=]', re.M)
+        for fn in sorted(os.listdir(d)):
+            if fn.endswith('.py') and fn != '__init__.py':
+                with open(os.path.join(d, fn)) as f:
+                    if pat.search(f.read()):
+                        sub = importlib.import_module(f'{self.__name__}.{fn[:-3]}')
+                        v = getattr(sub, name)
+                        setattr(self, name, v)
+                        return v
+        if os.path.exists(os.path.join(d, name + '.py')) or os.path.isdir(os.path.join(d, name)):
+            return importlib.import_module(f'{self.__name__}.{name}')
+        raise AttributeError(name)
+
+
 def install_shim():
     from symsc import api
 
@@ -29,7 +53,7 @@ def install_shim():
     for name in _PKGS:
         if name in sys.modules or name in _REAL_INIT:
             continue
-        m = types.ModuleType(name)
+        m = _BarePackage(name)
         m.__path__ = [os.path.join(REPO_SRC, *name.split('.'))]
         m.__package__ = name
         sys.modules[name] = m
